@@ -707,6 +707,12 @@ def mtol_check(d, case, rec):
         m = fem.MeshContainer([a, b], merge=True, decimals=d).stack()
     else:
         cat = fem.mesh.concatenate([a, b])
+        if case["seed"] % 2:
+            # the mesh to be merged is itself a copy with other points (here: of a half-size twin; times two is exact): methods and
+            # aliases of a copy act on the copy
+            twin = fem.Mesh(np.asarray(cat.points) / 2, np.asarray(cat.cells), cat.cell_type)
+            cat = twin.copy(points=np.asarray(twin.points) * 2)
+            rec.label("merged-mesh-is-a-copy-with-other-points")
         m = cat.merge_duplicate_points(decimals=d) if case["via"] == "mesh" else cat.sweep(decimals=d)
     P, C = np.array(m.points, float), np.array(m.cells)
     rec.nontrivial = case["noise"] > 0
